@@ -27,7 +27,7 @@ def parse_log(msg):
 
 
 class Unit(object):
-    __slots__ = ("kind", "ev", "uuid", "pre", "tokens", "cfg", "seq", "result")
+    __slots__ = ("kind", "ev", "uuid", "pre", "tokens", "cfg", "seq", "result", "src")
 
     def __init__(self, kind, seq):
         self.kind = kind
@@ -38,6 +38,7 @@ class Unit(object):
         self.cfg = None
         self.seq = seq
         self.result = None
+        self.src = None     # "int" / "ext": the queue the event was taken from
 
 
 def parse_units(lines, tag, bind):
@@ -52,6 +53,7 @@ def parse_units(lines, tag, bind):
     in_completion = False
     delayed_uuids = set()
     own_task = None
+    last_src = None
     for r in lines:
         kd = r[KIND]
         s = r[SESS]
@@ -65,6 +67,7 @@ def parse_units(lines, tag, bind):
                 cur = Unit("event", r[SEQ])
                 cur.ev = r[5]
                 cur.uuid = r[6] if len(r) > 6 else ""
+                cur.src = last_src
                 continue
             if kd == "bms":
                 if cur is None:
@@ -115,7 +118,11 @@ def parse_units(lines, tag, bind):
                 lab, val = parse_log(r[6])
                 tok = ("l", lab, val)
         elif s == intq and kd == "enq<":
-            tok = ("r", r[6]["name"])
+            # a delayed <send target="#_internal"> is put there by the timer thread: not content of this microstep
+            if r[7] not in delayed_uuids:
+                tok = ("r", r[6]["name"])
+        elif kd == "deq>" and s in (intq, extq) and r[6].get("name"):
+            last_src = "int" if s == intq else "ext"
         elif s == dlyq and kd == "dly<":
             delayed_uuids.add(r[7])
             tok = ("s", r[5]["name"], r[6], r[5].get("sendid", ""))
@@ -216,22 +223,27 @@ def refine(root, plan, res, tag="i0", fail_elems=None, max_units=100000, variant
                     if enabled0:
                         diverge("C01.select", "implementation processed event %s although the model has enabled eventless transitions %s" % (name, [t.xpath() for t in enabled0]), u)
                         break
-                    if m.iq:
-                        if etype == 2 and name != m.iq[0]:
-                            diverge("C01.queue", "implementation took external event %s while the model's internal queue holds %s" % (name, m.iq[:4]), u)
-                            break
-                        if name != m.iq[0]:
+                    asyncint = [p for p in m.pending_ext if len(p) > 3 and p[0] == name and p[2] is not True]
+                    from_int = (u.src == "int") if u.src else (etype != 2 or bool(m.iq and name == m.iq[0]))
+                    if from_int:
+                        if m.iq and name == m.iq[0]:
+                            m.iq.pop(0)
+                        elif asyncint:
+                            asyncint[0][2] = True       # arrived from the timer at some point: its place in the queue is not the model's to decide
+                        elif m.iq:
                             diverge("C01.queue", "implementation processed internal event %s, model expects %s (queue %s)" % (name, m.iq[0], m.iq[:4]), u)
                             break
-                        m.iq.pop(0)
-                    else:
-                        if etype != 2:
+                        else:
                             diverge("C01.queue", "implementation processed internal event %s but the model's internal queue is empty" % name, u)
+                            break
+                    else:
+                        if m.iq:
+                            diverge("C01.queue", "implementation took external event %s while the model's internal queue holds %s" % (name, m.iq[:4]), u)
                             break
                         if name in harness:
                             harness.remove(name)
                         else:
-                            pend = [p for p in m.pending_ext if p[0] == name and p[2] is not True]
+                            pend = [p for p in m.pending_ext if len(p) == 3 and p[0] == name and p[2] is not True]
                             if not pend:
                                 diverge("C01.event-not-pending", "implementation processed external event %s that neither the harness nor the chart has pending" % name, u)
                                 break
@@ -267,4 +279,5 @@ def refine(root, plan, res, tag="i0", fail_elems=None, max_units=100000, variant
                     break
     except ModelError as e:
         v.append(("HARNESS", "reference model error: %s" % e))
+    info["probes"] = dict(getattr(m, "probes", {}))
     return v, info
